@@ -178,6 +178,9 @@ class HCreateSolution(Handler):
         overdet = 0.0
         if pc is not None and pq is not None and n >= 2:
             overdet = 100 * sum(R.conc_quantum(cv) / max(cv, 1e-300) for cv, _, _ in pc)
+            # ... and by the double-precision error of the smallest unknown (the total follows from one solute's quantity
+            # and concentration: if that solute is a trace, its relative error is everybody's)
+            overdet += 32 * 2.3e-16 * max(amounts) / max(min(abs(res.contents.get(s_, 0.0)) for s_ in solutes), q)
         if container_solvent:
             # observer quanta: the solvent container's effective molar mass and density are taken from its total
             # moles and its volume, each kept to what the storage unit resolves
@@ -193,7 +196,10 @@ class HCreateSolution(Handler):
                               {'concentration': cstr, 'solute': s.name, 'result': F.snap_contents(res)})
                     continue
                 got = R.concentration(res.contents, s, num, den)
-                rel_tol = K * (R.conc_quantum(cval) / cval + storage_rel) + 1e-8 + overdet
+                # the amounts are the solution of a linear system in double precision: an unknown that is 1e12 times smaller
+                # than the largest one is only good to about eps x 1e12
+                cond = 32 * 2.3e-16 * max(amounts) / max(abs(res.contents.get(s, 0.0)), q)
+                rel_tol = K * (R.conc_quantum(cval) / cval + storage_rel) + 1e-8 + overdet + cond
                 ok = M.ratio('SOLN.conc', got, cval, rel_tol * cval)
                 if not ok and solvent_holds_solute:
                     # the stated concentration may be read as "of the solute added"; three-valued
@@ -216,7 +222,8 @@ class HCreateSolution(Handler):
                               {'quantity': qstr, 'solute': s.name})
                     continue
                 got_total = R.canon(s, res.contents.get(s, 0.0)) * R.per(s, qb)
-                tol = K * (abs(R.stored_quantum_in(s, qb)) * 2 + H1.request_quantum(qb)) + (1e-8 + overdet) * abs(qv)
+                cond = 32 * 2.3e-16 * max(amounts) / max(abs(res.contents.get(s, 0.0)), q)
+                tol = K * (abs(R.stored_quantum_in(s, qb)) * 2 + H1.request_quantum(qb)) + (1e-8 + overdet + cond) * abs(qv)
                 ok = M.ratio('SOLN.quantity', got_total, qv, tol)
                 if not ok and solvent_holds_solute:
                     added = res.contents.get(s, 0.0) - _aliquot_amount(solvent, solv_after, s)
